@@ -7,7 +7,7 @@ RULE = ("histories of up to 60 set/get/get-with-default/list calls over 10 secti
         "when it contains a creation, an overwrite and a lookup miss; distinct by the model's output lines")
 
 def gen(rng, tier):
-    n = 2400 if tier == "quick" else 20000
+    n = 2400 if tier == "quick" else 100000
     out = []
     for _ in range(n):
         cmds = gens.start_cmds(rng, 0)
